@@ -651,7 +651,10 @@ def check(rep: Report, tier: str, seed: int) -> None:
                 "(2-8 atoms, bond <= 4, 0..n-2 dark atoms, random cut for the entropy) for emu-mps; every MPS observable (incl. expect_batch with 3 "
                 "random operators, correlation with a custom operator) on qubit and qutrit states whose recorded orthogonality centre is None / "
                 "every site (set by orthogonalize, apply, get_correlation_matrix); 8 callback orders per shared fill_results-style state; real "
-                "emu-mps runs of 3-4 atoms with [CorrelationMatrix, Occupation] (and two more lists) vs [Occupation] alone")
+                "emu-mps runs of 3-4 atoms with [CorrelationMatrix, Occupation] (and two more lists) vs [Occupation] alone; the REAL "
+                "MPSBackendImpl/NoisyMPSBackendImpl.fill_results (hand-built impl, spy observable recording the state and Hamiltonian handed "
+                "to the callbacks) in {Lindblad noise, none} x {dark atoms, none} (+ 3 levels, + max_bond_dim=1 / precision=0.2): injected "
+                "states of norm 0.3..3 and 2-4 step runs whose norm decays without a jump (random.uniform patched to 0) or is truncated away")
     rep.assumptions = [
         "emu-mps: entanglement entropy and the truncation inside hamiltonian @ hamiltonian are validated against dense definitions "
         "(1e-9), not proved; that the emu-mps Hamiltonian MPO has the dense H as operator semantics is validated (energy oracle)",
@@ -771,6 +774,9 @@ def replay(rep: Report, path: str) -> int:
             print(f"replay: emu-mps run, [CorrelationMatrix, Occupation] vs [Occupation]: occupation differs by {e:.3e}",
                   "FAILS" if e > 1e-8 else "holds now")
             bad += e > 1e-8
+        elif d.get("kind") == "mps-fill-real":
+            from harness.props import c13_mps
+            bad += c13_mps.replay_fill(d)
         else:
             print("replay: no stored input for", f["what"][:100])
     return 1 if bad else 0
